@@ -2,7 +2,7 @@
    Model: Model/LsmCompaction.v (Compactor.Compact transcribed) over the entry-level layouts of Model/LsmBase.v. *)
 From Coq Require Import List NArith.
 From RV Require Import Base.Bytes Model.LsmBase Model.LsmCompaction Model.Lsm
-  Proofs.C18_Layout Proofs.C18_Main Proofs.C07_Refine Proofs.C07_Corollaries.
+  Proofs.C18_Layout Proofs.C18_Main Proofs.C07_Refine Proofs.C07_Corollaries Proofs.C18_Fixpoint.
 Import ListNotations.
 Open Scope N_scope.
 
@@ -38,8 +38,43 @@ Theorem scan_is_newest : forall ll p, valid ll -> ll_scan p ll = without_deletes
 Proof. exact ll_scan_newest. Qed.
 Print Assumptions scan_is_newest.
 
+(* Iterating Compact and applying its change sets until it returns nil - the loop of the compaction task, with no flush
+   in between - terminates on every valid layout for every setting, cursor value and size function; the final layout is
+   valid and has the same content. *)
+Theorem compact_fixpoint :
+  forall tsize cfg mcl ll, good_cfg cfg -> valid ll ->
+  exists fuel ll' mcl', compact_loop tsize fuel cfg mcl ll = Some (ll', mcl') /\ valid ll' /\ view ll' = view ll.
+Proof. exact compact_fixpoint_thm. Qed.
+Print Assumptions compact_fixpoint.
+
 (* the layouts the database reaches by flushes and compactions are valid, for every history and schedule *)
 Theorem reachable_layouts_valid :
   forall cfg acts st os, cfg_ok cfg -> run cfg (init cfg) acts = Some (st, os) -> valid (lv st).
-Proof. intros cfg acts st os H1 H2. exact (proj2 (proj2 (reachable_proof cfg acts st os H1 H2))). Qed.
+Proof. exact reachable_valid_proof. Qed.
 Print Assumptions reachable_layouts_valid.
+
+(* ---------- non-vacuity: a valid layout with two level-0 tables and populated deeper levels on which Compact returns
+   a change set, and level-0 tables that may arrive meanwhile ---------- *)
+
+Definition ex_cfg : dbcfg := mkDbCfg 19 1000000 6 (mkCfg 2 200 1 30).
+Definition ex_acts : list act :=
+  [ APut [97] [49; 49]; AF1; AF2; APut [98] [50; 50]; AF1; AF2; AC1; AC2; AC1; AC2; ADel [97]; AF1; AF2; APut [99] [51; 51]; AF1; AF2 ].
+Definition ex_state : option db := option_map fst (run ex_cfg (init ex_cfg) ex_acts).
+
+Example ex_cfg_ok : cfg_ok ex_cfg /\ good_cfg (d_comp ex_cfg).
+Proof. unfold cfg_ok, good_cfg, ex_cfg. cbn. repeat split; lia. Qed.
+
+Example ex_layout_valid_and_compacts :
+  exists st cs m, ex_state = Some st /\ valid (lv st) /\ length (hd [] (lv st)) = 2%nat /\
+                  compact table_size (d_comp ex_cfg) (mcl st) (lv st) = (Some cs, m) /\
+                  valid (add_l0 [[mkE [100] 9 false [52]]] (lv st)).
+Proof.
+  destruct (run ex_cfg (init ex_cfg) ex_acts) as [[st os]|] eqn:E; [|vm_compute in E; discriminate].
+  pose proof (reachable_valid_proof _ _ _ _ (proj1 ex_cfg_ok) E) as Hv.
+  (* one more write + flush gives the extended layout; it is reachable, hence valid *)
+  pose (more := ex_acts ++ [APut [100] [52]; AF1; AF2]).
+  destruct (run ex_cfg (init ex_cfg) more) as [[st2 os2]|] eqn:E2; [|vm_compute in E2; discriminate].
+  pose proof (reachable_valid_proof _ _ _ _ (proj1 ex_cfg_ok) E2) as Hv2.
+  vm_compute in E. injection E as <- _. vm_compute in E2. injection E2 as <- _.
+  eexists _, _, _. split; [vm_compute; reflexivity|]. split; [exact Hv|]. split; [reflexivity|]. split; [vm_compute; reflexivity|exact Hv2].
+Qed.
